@@ -1,39 +1,113 @@
 //! C01 — results are exactly the satisfying (state, colour) pairs.
 
 use super::common::*;
-use crate::formulas::{Alphabet, Gen};
+use crate::formulas::{duplicate_templates, templates, Alphabet, Bi, Gen, Hy, Un, F};
 use crate::oracle::Labels;
-use crate::report::Report;
+use crate::report::{Budget, Report};
 use crate::sem::{self, Checks, Entries};
 use crate::sweep::NetCtx;
 use serde_json::json;
+
+/// Operator slices for node bounds where the full alphabet explodes: every pair of operator
+/// groups x every quantifier (jump always available), so that every two operators co-occur.
+pub fn slices() -> Vec<(String, Alphabet)> {
+    let groups: Vec<(&str, Vec<Un>, Vec<Bi>)> = vec![
+        ("~", vec![Un::Not], vec![]),
+        ("EX AX", vec![Un::EX, Un::AX], vec![]),
+        ("EF AG", vec![Un::EF, Un::AG], vec![]),
+        ("AF EG", vec![Un::AF, Un::EG], vec![]),
+        ("& |", vec![], vec![Bi::And, Bi::Or]),
+        ("=> <=> ^", vec![], vec![Bi::Imp, Bi::Iff, Bi::Xor]),
+        ("EU AU", vec![], vec![Bi::EU, Bi::AU]),
+    ];
+    let mut out = vec![];
+    for i in 0..groups.len() {
+        for j in i + 1..groups.len() {
+            for q in [Hy::Bind, Hy::Exists, Hy::Forall] {
+                let mut a = Alphabet::plain(1, 2);
+                a.consts = vec![];
+                a.un = groups[i].1.iter().chain(groups[j].1.iter()).copied().collect();
+                a.bi = groups[i].2.iter().chain(groups[j].2.iter()).copied().collect();
+                a.quant = vec![q];
+                out.push((format!("[{}]+[{}]+{}", groups[i].0, groups[j].0, q.s()), a));
+            }
+        }
+    }
+    out
+}
 
 pub fn run(tier: &str) -> Result<Report, String> {
     let mut rep = Report::new("C01", tier, "model_checking");
     std_assumptions(&mut rep);
     let nets = core_nets(3)?;
     let ck = Checks { semantic: true, unit: false, entries: Entries::Plain4 };
-    let (m_all, m_deep, deep_nets): (usize, usize, Vec<&str>) = if tier == "quick" {
-        (4, 5, vec!["con2", "asy2", "imp1"])
-    } else {
-        (5, 5, vec![])
-    };
-    let mut slices = vec![];
+    let quick = tier == "quick";
+    let (m_all, m_deep, deep_nets): (usize, usize, Vec<&str>) = if quick { (4, 5, vec!["con2", "asy2", "imp1"]) } else { (5, 5, vec![]) };
+    let mut parts = vec![];
+    // 1. full plain alphabet up to a node bound + template families on the core networks
     for b in &nets {
         sem::note_network(&mut rep, b);
         let ctx = NetCtx::new(b.clone(), Labels::default(), "none");
         let m = if deep_nets.contains(&b.name.as_str()) { m_deep } else { m_all };
         let alpha = Alphabet::plain(ctx.nprops(), 3);
         let mut g = Gen::new(alpha.clone());
-        let fs = g.closed_up_to(m);
-        slices.push(json!({"network": b.name, "max_nodes": m, "alphabet": alpha.describe(), "formulae": fs.len()}));
-        if rep.samples.len() < 6 {
-            let f = &fs[fs.len() * 2 / 3];
+        let mut fs = g.closed_up_to(m);
+        let n_size = fs.len();
+        let mut tm = templates(&ctx.user, false, if quick { 2 } else { 8 });
+        // duplicated one-free-variable sub-formulae at equal and different quantifier depths
+        tm.extend(duplicate_templates(ctx.nprops(), if quick { 4 } else { 5 }, quick, false));
+        let n_tmpl = tm.len();
+        fs.extend(tm);
+        parts.push(json!({"part": "core", "network": b.name, "max_nodes": m, "alphabet": alpha.describe(), "formulae": n_size, "template_formulae": n_tmpl}));
+        if rep.samples.len() < 5 {
+            let f = &fs[n_size * 2 / 3];
             rep.sample(json!({"network": b.name, "formula": f.show(&ctx.user), "expected_states_per_colour": ctx.expected(f).iter().map(|m| format!("{m:b}")).collect::<Vec<_>>()}));
+            let f = &fs[n_size + n_tmpl / 2];
+            rep.sample(json!({"network": b.name, "template": f.show(&ctx.user), "expected_states_per_colour": ctx.expected(f).iter().map(|m| format!("{m:b}")).collect::<Vec<_>>()}));
         }
         sem::sweep(&mut rep, &ctx, &fs, ck);
     }
-    rep.set("slices", json!(slices));
-    rep.rule = "all closed formulae with at most max_nodes nodes over the plain operator set (see slices) on every network of the core family, evaluated through model_check_formula, _dirty, model_check_tree, _tree_dirty and compared on every state x valid colour with the explicit-state oracle; distinct_nontrivial = number of distinct (network, verdict table) pairs that are neither empty nor full".into();
+    // 2. all 2-variable networks of the grammar
+    let (all2, info) = all2_nets(3, if quick { Some(1) } else { None })?;
+    rep.set("all_2_variable_networks", info);
+    let mut g2 = Gen::new(Alphabet::plain(2, 3));
+    let fs3 = g2.closed_up_to(3);
+    let fs4 = g2.closed_up_to(4);
+    let budget = Budget::new(if quick { 25.0 } else { 1500.0 });
+    let mut done = 0;
+    for (i, b) in all2.iter().enumerate() {
+        if budget.exceeded() {
+            rep.cap(format!("wall budget reached after {done} of {} networks of the 2-variable family", all2.len()));
+            break;
+        }
+        sem::note_network_light(&mut rep, b);
+        let ctx = NetCtx::new(b.clone(), Labels::default(), "none");
+        // every network: node bound 3; every 25th network (thorough): node bound 4
+        let fs = if !quick && i % 25 == 0 { &fs4 } else { &fs3 };
+        sem::sweep(&mut rep, &ctx, fs, Checks { semantic: true, unit: false, entries: Entries::PlainDirty });
+        done += 1;
+    }
+    parts.push(json!({"part": "all 2-variable networks", "networks_done": done, "formulae_bound_3": fs3.len(), "formulae_bound_4_on_every_25th": if quick { 0 } else { fs4.len() }}));
+    // 3. operator slices with a deeper node bound
+    let slice_nets: Vec<&str> = if quick { vec!["asy2"] } else { vec!["asy2", "con2", "unc2", "cyc3"] };
+    let m_slice = if quick { 5 } else { 6 };
+    let sl = slices();
+    let mut slice_total = 0usize;
+    for (si, (name, alpha)) in sl.iter().enumerate() {
+        if quick && si % 7 != 0 {
+            continue;
+        }
+        let mut g = Gen::new(alpha.clone());
+        let fs: Vec<F> = g.exact(m_slice, 0).iter().cloned().collect();
+        slice_total += fs.len();
+        for b in nets.iter().filter(|b| slice_nets.contains(&b.name.as_str())) {
+            let ctx = NetCtx::new(b.clone(), Labels::default(), "none");
+            sem::sweep(&mut rep, &ctx, &fs, Checks { semantic: true, unit: false, entries: Entries::PlainDirty });
+        }
+        let _ = name;
+    }
+    parts.push(json!({"part": "operator slices", "nodes_exactly": m_slice, "slices": if quick { sl.len().div_ceil(7) } else { sl.len() }, "slice_names": sl.iter().map(|s| s.0.clone()).collect::<Vec<_>>(), "formulae": slice_total, "networks": slice_nets}));
+    rep.set("parts", json!(parts));
+    rep.rule = "(1) all closed formulae with at most max_nodes nodes over the plain operator set and the template families (benchmark formulae, two/three-variable quantifier nests with jumps, duplicated sub-formulae with swapped variable roles, one-free-variable sub-formulae with inner quantifiers duplicated at equal and different quantifier depths in both orders) on every core network through model_check_formula, _dirty, model_check_tree, _tree_dirty; (2) all closed formulae with <= 3 (every 25th network: 4) nodes on every network of the de-duplicated family of ALL 2-variable networks of the grammar; (3) all closed formulae with exactly m nodes in every operator slice (each pair of operator groups x each quantifier, jump included). Every result is compared on every state x valid colour with the explicit-state oracle; distinct_nontrivial = number of distinct (network, verdict table) pairs that are neither empty nor full".into();
     Ok(rep)
 }
